@@ -9,7 +9,7 @@ import torch.nn as nn
 
 SMP = {'sample_alpha_sm': 0, 'sample_alpha_gs': 1, 'sample_alpha_none': 2}
 SMP_NAME = {0: 'Sm', 1: 'Gs', 2: 'NoSamp'}
-OBS_ID = {'export': 0, 'export_nobn': 1, 'summary': 2, 'cost': 3, 'str': 4}
+OBS_ID = {'export': 0, 'export_nobn': 1, 'summary': 2, 'cost': 3, 'str': 4, 'export_run': 5}
 SW_ID = {'train_net_only': 0, 'train_nas_only': 1, 'train_net_and_nas': 2, 'train_features': 3, 'train_rf': 4, 'train_dilation': 5, 'train_selection': 6}
 
 
@@ -347,6 +347,15 @@ class Runner:
                     W.export()
                 elif op[1] == 'export_nobn':
                     W.export(add_bn=False)
+                elif op[1] == 'export_run':      # export and USE the exported network (it may share objects with the NAS model)
+                    # inference with the exported network: only while the NAS model is in eval mode -- SuperNet.export() returns a
+                    # network that SHARES its layers (BatchNorm included) with the NAS model, so calling e.eval() would flip the NAS
+                    # model's flags and a train-mode run would write its BatchNorm statistics: neither is an observer call
+                    e = W.export()
+                    if leaf_mode(W) is False:
+                        e.eval()
+                        with torch.no_grad():
+                            e(self.x(500 + len(self.mops)))
                 elif op[1] == 'summary':
                     W.summary()
                 elif op[1] == 'cost':
